@@ -1,7 +1,7 @@
 """Fail-closed translator: expansion/makeellipsoid.py + expansion/shapeutils.py -> Gen/C18_Spec.v
 
 Extracted:
-  * makeSphere(S, radius) = makeEllipsoid(S, <args>) call shape; the defaults `if b is None: b = a`, `if c is None: c = a`
+  * makeSphere(S, radius) = makeEllipsoid(S, <args>) call shape; the defaults `if b is None: b = <radius>`, `if c is None: c = <radius>` (carried into the model as written)
   * the block size: frac = <lattice expression of sabc>; mno = max(ceil(K * xi) for xi in frac) * array([1, 1, 1])
       accepted frac expressions:  S.lattice.fractional(sabc)        (sabc . recbase)
                                   sabc.dot(abs(S.lattice.recbase))  (sabc . |recbase|)   [and numpy.dot(sabc, abs(..))]
@@ -77,9 +77,15 @@ def spec():
         s = U(st)
         if isinstance(st, ast.If) and U(st.test) in ("bisNone", "cisNone") and not st.orelse and len(st.body) == 1:
             v = U(st.test)[0]
-            if U(st.body[0]) != "%s=a" % v:
-                refuse(FE, st, "default of %s is not a" % v)
-            sp["default_" + v] = "a"
+            asg = st.body[0]
+            # the default may be any radius already settled: a, or b once b's own default has been applied
+            settled = ["a"] + (["b"] if "default_b" in sp else [])
+            if not (isinstance(asg, ast.Assign) and U(asg.targets[0]) == v and isinstance(asg.value, ast.Name) and asg.value.id in settled
+                    and asg.value.id != v):
+                refuse(FE, st, "default of %s is not one of the radii settled before it (%s)" % (v, settled))
+            if "default_" + v in sp or "sabc" in seen:
+                refuse(FE, st, "default of %s applied twice or after the radii vector is built" % v)
+            sp["default_" + v] = asg.value.id
             seen.append("default")
             continue
         if isinstance(st, ast.Assign) and len(st.targets) == 1 and isinstance(st.targets[0], ast.Name):
@@ -168,7 +174,7 @@ def spec():
     want = ["default", "default", "sabc", "frac", "mno", "import", "supercell", "lat", "center", "cxyz", "dellist", "N", "j", "scan", "pop", "return"]
     core = [x for x in seen if x != "import"]
     if sorted(core) != sorted(x for x in want if x != "import") or core.index("pop") < core.index("scan") or core[-1] != "return" \
-            or core.index("cxyz") > core.index("scan") or sp.get("default_b") != "a" or sp.get("default_c") != "a":
+            or core.index("cxyz") > core.index("scan") or "default_b" not in sp or "default_c" not in sp:
         raise TranslatorRefusal("%s: makeEllipsoid is not the understood sequence of steps (got %s)" % (FE, seen))
     # ---- findCenter
     f, body = body_of(ts, "findCenter", FS)
@@ -259,11 +265,12 @@ def generate():
     sp = spec()
     out = ["(* GENERATED by translate/c18_ellipsoid.py from expansion/makeellipsoid.py and expansion/shapeutils.py - do not edit *)",
            "From Coq Require Import ZArith List.", "From DS Require Import Base.C09_GNum.", "",
-           "(* makeSphere(S, radius) = makeEllipsoid(S, radius%s%s); defaults: b = a when None, c = a when None *)"
-           % (", radius" if sp["sphere_passes_b"] else "", ", radius" if sp["sphere_passes_c"] else ""),
+           "(* makeSphere(S, radius) = makeEllipsoid(S, radius%s%s); defaults as written in the source: b = %s when None, c = %s when None *)"
+           % (", radius" if sp["sphere_passes_b"] else "", ", radius" if sp["sphere_passes_c"] else "", sp["default_b"], sp["default_c"]),
            "Definition c18_sphere_args {T : Type} (radius : T) : T * option T * option T :=",
            "  (radius, %s, %s)." % ("Some radius" if sp["sphere_passes_b"] else "None", "Some radius" if sp["sphere_passes_c"] else "None"),
-           "Definition c18_default {T : Type} (a : T) (o : option T) : T := match o with Some x => x | None => a end.",
+           "Definition c18_default_b {T : Type} (a : T) (ob : option T) : T := match ob with Some x => x | None => %s end." % sp["default_b"],
+           "Definition c18_default_c {T : Type} (a b : T) (oc : option T) : T := match oc with Some x => x | None => %s end." % sp["default_c"],
            "(* frac = %s *)" % ("S.lattice.fractional(sabc)" if sp["frac"] == "plain" else "sabc.dot(abs(S.lattice.recbase))"),
            "Definition c18_frac {T : Type} (O : ops T) (sabc : gvec T) (recbase : gmat T) : gvec T :=",
            "  gvmmul O sabc %s." % ("recbase" if sp["frac"] == "plain" else "(gmmap (tabs O) recbase)"),
